@@ -232,7 +232,9 @@ func (e *endpoint) readiness() uint32 {
 	}
 	if e.rst {
 		r |= EPOLLERR | EPOLLHUP | EPOLLRDHUP | EPOLLOUT
-	} else if e.eof && e.wclosed {
+	} else if (e.eof && e.wclosed) || (e.unix && e.other().closed) {
+		// AF_UNIX: the surviving end reports HUP as soon as the peer closed its descriptor
+		// (unix_release_sock shuts both directions of the peer), also with input still unread
 		r |= EPOLLHUP
 	}
 	if !e.rst && !e.wclosed && (e.free() > 0 || e.other().closed) {
